@@ -312,6 +312,10 @@ class StoneToPythonPrimitiveSerializer(StoneSerializerBase):
             # but we want the bool to be encoded as ``0`` or ``1``, rather
             # than ``False`` or ``True``, respectively
             return int(value)
+        elif isinstance(validator, bv.Real) \
+                and isinstance(value, bool):
+            # likewise for a bool that passed Real validation
+            return float(value)
         else:
             return value
 
